@@ -70,6 +70,54 @@ Definition spec_pmt_section (ssi pb : bool) (ext version : Z) (cni : bool) (sn l
            (program_info : list Z) (streams : list (Z * Z * list Z)) : list Z :=
   spec_section 2 ssi pb (spec_pmt_body ext version cni sn lsn pcr_pid program_info streams).
 
+(* ---- EN 300 468 5.2: SDT, NIT, EIT, TOT.  Descriptor loops are opaque byte strings (C14), the 40-bit UTC time and
+   the 24-bit duration are opaque 5- and 3-byte strings (MJD + BCD, Annex C: C15) ---- *)
+
+(* four bits (reserved, or running_status + free_CA_mode), a 12-bit length, that many bytes *)
+Definition spec_loop16 (top4 : Z) (bytes : list Z) : list Z :=
+  bytes_of_fields [(4%nat, top4); (12%nat, Z.of_nat (length bytes))] ++ bytes.
+
+(* service_id(16) reserved(6) EIT_schedule(1) EIT_present_following(1) running_status(3) free_CA_mode(1)
+   descriptors_loop_length(12) descriptors *)
+Definition spec_sdt_service (service_id : Z) (sched pf : bool) (running : Z) (free_ca : bool) (descriptors : list Z) : list Z :=
+  bytes_of_fields [(16%nat, service_id); (6%nat, 63); flag sched; flag pf]
+  ++ spec_loop16 (running * 2 + Z.b2z free_ca) descriptors.
+
+(* original_network_id(16) reserved(8), then the services *)
+Definition spec_sdt_body (ext version : Z) (cni : bool) (sn lsn : Z) (onid : Z)
+           (services : list (Z * bool * bool * Z * bool * list Z)) : list Z :=
+  bytes_of_fields (spec_syntax_header ext version cni sn lsn)
+  ++ bytes_of_fields [(16%nat, onid); (8%nat, 255)]
+  ++ flat_map (fun s => match s with (sid, sc, pf, rs, fca, ds) => spec_sdt_service sid sc pf rs fca ds end) services.
+
+(* transport_stream_id(16) original_network_id(16) reserved(4) transport_descriptors_length(12) descriptors *)
+Definition spec_nit_ts (tsid onid : Z) (descriptors : list Z) : list Z :=
+  bytes_of_fields [(16%nat, tsid); (16%nat, onid)] ++ spec_loop16 15 descriptors.
+
+(* reserved(4) network_descriptors_length(12) descriptors reserved(4) transport_stream_loop_length(12) loop *)
+Definition spec_nit_body (ext version : Z) (cni : bool) (sn lsn : Z) (network_descriptors : list Z)
+           (streams : list (Z * Z * list Z)) : list Z :=
+  bytes_of_fields (spec_syntax_header ext version cni sn lsn)
+  ++ spec_loop16 15 network_descriptors
+  ++ spec_loop16 15 (flat_map (fun t => spec_nit_ts (fst (fst t)) (snd (fst t)) (snd t)) streams).
+
+(* event_id(16) start_time(40) duration(24) running_status(3) free_CA_mode(1) descriptors_loop_length(12) descriptors *)
+Definition spec_eit_event (event_id : Z) (start_time duration : list Z) (running : Z) (free_ca : bool)
+           (descriptors : list Z) : list Z :=
+  bytes_of_fields [(16%nat, event_id)] ++ start_time ++ duration
+  ++ spec_loop16 (running * 2 + Z.b2z free_ca) descriptors.
+
+(* transport_stream_id(16) original_network_id(16) segment_last_section_number(8) last_table_id(8), events *)
+Definition spec_eit_body (ext version : Z) (cni : bool) (sn lsn : Z) (tsid onid slsn ltid : Z)
+           (events : list (Z * list Z * list Z * Z * bool * list Z)) : list Z :=
+  bytes_of_fields (spec_syntax_header ext version cni sn lsn)
+  ++ bytes_of_fields [(16%nat, tsid); (16%nat, onid); (8%nat, slsn); (8%nat, ltid)]
+  ++ flat_map (fun e => match e with (eid, st, du, rs, fca, ds) => spec_eit_event eid st du rs fca ds end) events.
+
+(* UTC_time(40) reserved(4) descriptors_loop_length(12) descriptors; the TOT has no table_id_extension part *)
+Definition spec_tot_body (utc_time : list Z) (descriptors : list Z) : list Z :=
+  utc_time ++ spec_loop16 15 descriptors.
+
 (* ---- the reference decoder's gate (Annex A): a section is accepted only if the CRC_32 of everything
    before the last four bytes equals those four bytes ---- *)
 Definition spec_crc_ok (section : list Z) : Prop :=
